@@ -355,6 +355,22 @@ class VM:
                 return (not r) if c.negated else r
             if isinstance(c.subject, (Fresh, Item, Seq, SliceV, ObjRef, MarkV)):
                 return bool(c.negated)
+        if isinstance(c, Cond) and c.kind == "isinstance" and c.arg == "type" and c.subject is not None and (c.subject.pykind == "node" or isinstance(c.subject, (Item, Fresh, SliceV))):
+            # the symbolic stack holds ast nodes and MarkObject instances, never classes
+            return bool(c.negated)
+        if isinstance(c, Cond) and c.kind == "bool-op" and c.kids:
+            ts = [self._truth(k, st) for k in c.kids]
+            if c.arg == "or":
+                if any(t is True for t in ts):
+                    return True
+                if all(t is False for t in ts):
+                    return False
+            else:
+                if any(t is False for t in ts):
+                    return False
+                if all(t is True for t in ts):
+                    return True
+            return None
         if isinstance(c, (Fresh, Item, ObjRef, MarkV)):
             return True
         return None
